@@ -100,6 +100,7 @@ def summarise(F, role):
         # carried scalars written by some arm: advance symbolically so the outer loop sees a sum schema
         for lid in marks:
             env[lid] = Sc(I_.deref(env[lid]).e + sfun("FLATSUM:" + str(carried[lid]))(q))
+        I_.havoc_count += 1  # scatter effects are summarised, not applied: exempt from the loop-carried-state rule
         # mark scatter targets so that the returned tuple can be matched to its roles
         for ef in effects:
             if ef["kind"] == "scatter" and ef["root"] in env:
